@@ -127,7 +127,10 @@ def rebuildSwnm (cfg : RichCfg) (secs : List RSection) (order : Option (List Nat
     | [.swnm ss] => ss
     | _ => (List.range cfg.switchSlots).map fun i => ⟨.null, some i, 0⟩
   let used := (secs.filter (fun s => !isSectionNamed nSWNM s)).flatMap (sectionSwitches cfg)
-  let allUsed := allocOrder order (dedupBy RSwitch.same (used ++ swnm.filter hasCustomName))
+  -- the names the SWNM holds are placed first; then the switches the triggers use (set order)
+  let named := swnm.filter hasCustomName
+  let usedD := allocOrder order (dedupBy RSwitch.same used)
+  let allUsed := named ++ usedD.filter fun u => !(named.any fun n => RSwitch.same n u)
   let carried := allUsed.filterMap (·.idx)
   let free := (List.range cfg.switchSlots).filter fun i => !carried.contains i
   let rec go : List RSwitch → List Nat → List RSwitch → List (RSwitch × Nat) → R (List RSwitch × List (RSwitch × Nat))
@@ -135,7 +138,12 @@ def rebuildSwnm (cfg : RichCfg) (secs : List RSection) (order : Option (List Nat
     | s :: rest, free, tbl, ids =>
       match s.idx with
       | some i =>
-        if i < tbl.length then go rest free (tbl.set i s) ((s, i) :: ids) else .error .index
+        -- a switch referred to by its number alone keeps the name its slot already has
+        match tbl[i]? with
+        | none => .error .index
+        | some cur =>
+          if hasCustomName s || !hasCustomName cur then go rest free (tbl.set i s) ((s, i) :: ids)
+          else go rest free tbl ((s, i) :: ids)
       | none =>
         match free with
         | [] => .error .value
